@@ -27,7 +27,32 @@ SIGNAL_NAMES = ("CancelTask", "CancelScope", "GeneratorExit")
 SUPPRESSED = ("TaskCancelled", "TaskClosed", "VolatileTaskClosed", "GeneratorExit")
 
 
+def _closed_while_failing(rng):
+    """Directed shape (found by the thorough tier of C03): an owner is closed forcefully while its
+    inner scope has a privileged child failure pending, and its clean-up suspends for anything
+    but a forceful close."""
+    k = rng.randint(0, 3)
+    inner_child = {"name": "c6", "ops": [{"op": "postpone", "k": rng.randint(0, 2)},
+                                         {"op": "raise", "type": rng.choice(["kbd", "exit", "A"])}]}
+    if rng.random() < 0.5:
+        inner_child["ops"].insert(0, {"op": "scope", "label": "S7", "children": [], "body": []})
+    victim = {"name": "c3", "ops": [{
+        "op": "finally", "handler": [rng.choice([{"op": "sleep", "d": 1}, {"op": "postpone", "k": 1}])],
+        "body": [{"op": "scope", "label": "S4", "children": [inner_child], "body": []}]}]}
+    killer = {"name": "c2", "ops": [{"op": "postpone", "k": k},
+                                    {"op": "raise", "type": rng.choice(["exit", "kbd", "E"])}]}
+    kids = [killer, victim]
+    rng.shuffle(kids)
+    scenario = {"resources": {}, "actors": [{"name": "own", "ops": [
+        {"op": "try", "all": True, "body": [
+            {"op": "scope", "label": "S1", "children": kids, "body": []}]}]}]}
+    return {"property": ID, "scenario": scenario, "plan": [],
+            "config": {"waitq": rng.choice(["heap", "sd"])}}
+
+
 def generate(rng, tier):
+    if rng.random() < 0.02:
+        return _closed_while_failing(rng)
     gen = Gen(rng, fail_rate=rng.choice([0.15, 0.3, 0.5]), priv_rate=rng.choice([0.0, 0.15, 0.4]),
               until_rate=rng.choice([0.0, 0.3]), max_depth=2, cancel_rate=0.1)
     scenario, label = gen.program()
@@ -90,6 +115,11 @@ def check(rec):
             accept = [b_meta] + priv_children[:1]
         elif priv_children:
             accept = [priv_children[0]]
+            if b_meta is not None and b_meta[0] == "GeneratorExit" or \
+                    observed is not None and observed[0] == "GeneratorExit":
+                # closed forcefully: the close itself may (and for the sake of clean-up code
+                # around the block should, C03) be what leaves the block
+                accept.append(("GeneratorExit",))
         elif b_meta is not None and not own_signal:
             accept = [b_meta]
         elif observed is not None and observed[0] in SIGNAL_NAMES and not (
